@@ -1,2 +1,125 @@
+"""C02-O11: models.VolumeModel coefficients (control executor with point-wise array values).
+
+  eta_d = -s mu0 V (sigma_d [+ s eps0 eps_r]),   zeta = V / mu_r,   V = hx hy hz  (meshes.BaseMesh inlined),
+  eta_y is eta_x unless case in {HTI, triaxial};  eta_z is eta_x unless case in {VTI, triaxial};
+  sigma_d = map.backward(property_d) (C14);  no storage of the input model is written.
+"""
+import os
+
+import z3
+
+from pyvc import cx, ob
+from .cxutil import clause
+
+PROP = 'C02'
+CASES = ('isotropic', 'HTI', 'VTI', 'triaxial')
+BW = z3.Function('backward', z3.RealSort(), z3.RealSort())
+
+
+def replay_vm(d):
+    from . import c02_concrete
+    return ob.guarded(c02_concrete.check_volume_model, seeds=(0,))
+
+
+def task_volume_model():
+    col = ob.Collector(PROP, 'models.VolumeModel')
+    col.default_replay = replay_vm
+    col.function('models.VolumeModel')
+    col.function('meshes.BaseMesh')
+    smu0, sval = z3.Reals('smu0 sval')
+    hx, hy, hz = z3.Reals('hx hy hz')
+    res = []
+    for case in CASES:
+        for has_mu in (False, True):
+            for has_eps in (False, True):
+                def mk(ctx, case=case, has_mu=has_mu, has_eps=has_eps):
+                    def backward(it, args, kw, node):
+                        p = args[-1]
+                        return cx.NDArr(cx.Store('conductivity', BW(p.store.val)))
+                    ctx.summaries['maps.BaseMap.backward'] = backward
+                    props = {}
+                    for d in 'xyz':
+                        present = d == 'x' or (d == 'y' and case in ('HTI', 'triaxial')) or (d == 'z' and case in ('VTI', 'triaxial'))
+                        props['property_' + d] = cx.NDArr(cx.Store('model.property_' + d, z3.Real('p' + d))) if present else None
+                    props['mu_r'] = cx.NDArr(cx.Store('model.mu_r', z3.Real('mu_r'))) if has_mu else None
+                    props['epsilon_r'] = cx.NDArr(cx.Store('model.epsilon_r', z3.Real('eps_r'))) if has_eps else None
+                    grid = cx.Obj('TensorMesh', dict(h=[cx.NDArr(cx.Store('grid.h0', hx)), cx.NDArr(cx.Store('grid.h1', hy)),
+                                                        cx.NDArr(cx.Store('grid.h2', hz))], origin=cx.Vec([0.0, 0.0, 0.0])))
+                    mp = cx.Obj('BaseMap', {}, mod='maps')
+                    model = cx.Obj('Model', dict(case=case, grid=grid, shape=(z3.Int('n0'), z3.Int('n1'), z3.Int('n2')), map=mp,
+                                                 _properties=['property_x', 'property_y', 'property_z', 'mu_r', 'epsilon_r'], **props))
+                    sfield = cx.Obj('Field', dict(smu0=smu0, sval=sval))
+                    vm = cx.Obj('VolumeModel', {}, mod='models')
+                    return [model, sfield], {}, dict(__self__=vm, model=model, props=props, case=case, has_mu=has_mu, has_eps=has_eps, grid=grid)
+                res += cx.run_function('models.VolumeModel.__init__', mk, summaries={}, opts={})
+    clause(col, 'constructor_returns_normally', res, lambda r: r.outcome == 'return')
+    eps0 = z3.Real('EPSILON_0')
+    V = hx * hy * hz
+
+    def val(a):
+        return a.store.val if isinstance(a, cx.NDArr) else None
+
+    def getprop(r, name):
+        """evaluate the real property getter on the constructed object"""
+        it = cx.Interp(cx.Ctx([], r.pc), 'models')
+        return it.getattr(r.state['__self__'], name)
+
+    def eta_ok(r):
+        vm = r.state['__self__']
+        gs = []
+        for d in 'xyz':
+            p = r.state['props']['property_' + d]
+            got = vm.fields.get('_eta_' + d)
+            if p is None:
+                gs.append(z3.BoolVal(got is None))
+                continue
+            if not isinstance(got, cx.NDArr) or val(got) is None:
+                return False
+            sig = BW(p.store.val)
+            want = -smu0 * V * (sig + sval * eps0 * z3.Real('eps_r')) if r.state['has_eps'] else -smu0 * V * sig
+            gs.append(val(got) == want)
+        return z3.And(*gs)
+    clause(col, 'eta_is_minus_s_mu0_V_sigma_plus_s_eps', res, eta_ok, sample=True)
+
+    def zeta_ok(r):
+        z = r.state['__self__'].fields.get('_zeta')
+        if not isinstance(z, cx.NDArr) or val(z) is None:
+            return False
+        return val(z) == (V / z3.Real('mu_r') if r.state['has_mu'] else V)
+    clause(col, 'zeta_is_V_over_mu_r', res, zeta_ok, [z3.Real('mu_r') != 0])
+
+    def alias_ok(r):
+        case = r.state['case']
+        ex, ey, ez, ze = (getprop(r, n) for n in ('eta_x', 'eta_y', 'eta_z', 'zeta'))
+        vm = r.state['__self__'].fields
+        ok = ex is vm['_eta_x'] and ze is vm['_zeta']
+        ok = ok and (ey is (vm['_eta_y'] if case in ('HTI', 'triaxial') else vm['_eta_x']))
+        ok = ok and (ez is (vm['_eta_z'] if case in ('VTI', 'triaxial') else vm['_eta_x']))
+        return ok
+    clause(col, 'eta_y_eta_z_fall_back_to_eta_x_exactly_for_the_documented_cases', res, alias_ok)
+
+    def own_ok(r):
+        vm = r.state['__self__'].fields
+        stores = [vm[k].store for k in ('_eta_x', '_eta_y', '_eta_z', '_zeta') if isinstance(vm.get(k), cx.NDArr)]
+        distinct = len({s.uid for s in stores}) == len(stores)
+        inputs = {a.store.uid for a in list(r.state['props'].values()) + r.state['grid'].fields['h'] if isinstance(a, cx.NDArr)}
+        no_share = all(s.uid not in inputs for s in stores)
+        frame = all(e['store'].uid not in inputs for e in r.mutations())
+        return distinct and no_share and frame
+    clause(col, 'coefficient_arrays_are_distinct_fresh_storages__input_model_and_grid_not_written', res, own_ok)
+    return col.pack()
+
+
+def task_concrete():
+    from . import c02_concrete
+    col = ob.Collector(PROP, 'models.VolumeModel/concrete')
+    col.function('models.VolumeModel')
+    seed = int(os.environ.get('VERIF_SEED', '0'))
+    r = ob.guarded(c02_concrete.check_volume_model, seeds=(seed, seed + 1))
+    col.concrete('coefficients_on_real_VolumeModel_then_operator_vs_checker_side_assembly', r['reproduced'] is False, r,
+                 bounded='4 anisotropy cases x mu_r on/off x epsilon_r on/off x complex/real s x 2 seeds, grid 3x4x2', cases=r.get('cases', 0))
+    return col.pack()
+
+
 def tasks(tier):
-    return []
+    return [('contracts.c02_model', 'task_volume_model', {}), ('contracts.c02_model', 'task_concrete', {})]
